@@ -149,6 +149,13 @@ pub fn run_e7(spec: &ShardSpec, cur: Option<&str>) -> Outcome {
     let t0 = std::time::Instant::now();
     let cfg = spec.cfg();
     let stride: u32 = spec.extra.get("stride").and_then(|s| s.parse().ok()).unwrap_or(0);
+    // full audit (contents, every get, cursor) every `audit_every` growth steps; 0 = only at the end
+    let audit_every: u32 = spec.extra.get("audit_every").and_then(|s| s.parse().ok()).unwrap_or(0);
+    // richer call mix: entry / raw-entry / get_mut / remove_entry on keys of either table
+    let mix = spec.extra.get("mix").map_or(false, |s| s == "1");
+    // head-room probe (C04) shortly after every resize start
+    let fill = spec.extra.get("fill").map_or(false, |s| s == "1");
+    let mut since_resize = u32::MAX;
     let mut out = Outcome::default();
     let mut curf = CurFile::new(cur);
     reset_exec();
@@ -166,6 +173,7 @@ pub fn run_e7(spec: &ShardSpec, cur: Option<&str>) -> Outcome {
     let mut obs_seen = std::collections::HashSet::new();
     let mut k: u32 = 0;
     let mut fail: Option<(crate::op::Viol, Op)> = None;
+    let mut fail_late: Option<crate::op::Viol> = None;
     let mut do_op = |w: &mut MapWorld<u32>, op: Op, out: &mut Outcome, hist_tail: &mut std::collections::VecDeque<Op>| -> bool {
         hist_tail.push_back(op);
         if hist_tail.len() > 24 {
@@ -201,6 +209,41 @@ pub fn run_e7(spec: &ShardSpec, cur: Option<&str>) -> Outcome {
         if !before_old && st.old.is_some() {
             resizes += 1;
             out.phases[1] += 1;
+            since_resize = 0;
+        } else if since_resize != u32::MAX {
+            since_resize += 1;
+        }
+        if fill && (since_resize == 2 || since_resize == 9) {
+            if !do_op(&mut w, Op::k(OpK::FillToCap), &mut out, &mut hist_tail) {
+                break 'grow;
+            }
+            k = w.next_key;
+            since_resize = u32::MAX;
+        }
+        if audit_every > 0 && k % audit_every == 0 {
+            if let Err(v) = w.audit(true) {
+                hist_tail.push_back(Op::arg(OpK::IterCheck, 0));
+                fail_late = Some(v);
+                break 'grow;
+            }
+        }
+        if mix && k % 5 == 0 && k > 16 {
+            use crate::chain::*;
+            let old_key = k / 2; // often still in the old table while a resize is pending
+            let ops = [
+                Op::key(OpK::GetMut, old_key),
+                Op::new(OpK::EntryChain, k - 3, encode(&[O_GET_MUT])),
+                Op::new(OpK::EntryChain, old_key + 1, encode(&[E_AND_MODIFY, E_OR_INSERT])),
+                Op::new(OpK::RawChain, old_key + 2, encode(&[RO_GET_MUT]) << 2),
+                Op::key(OpK::RemoveEntry, old_key + 3),
+                Op::new(OpK::EntryChain, old_key + 3, encode(&[E_OR_INSERT, R_WRITE])),
+                Op::new(OpK::EntryChain, old_key + 4, encode(&[O_REPLACE_WITH_SOME, O_GET])),
+                Op::key(OpK::GetKeyValue, old_key + 5),
+                Op::key(OpK::ContainsKey, k + 7_000_000),
+            ];
+            if !do_op(&mut w, ops[(k / 5) as usize % ops.len()], &mut out, &mut hist_tail) {
+                break 'grow;
+            }
         }
         if let Some(o) = st.old {
             max_old = max_old.max(o.0);
@@ -228,6 +271,7 @@ pub fn run_e7(spec: &ShardSpec, cur: Option<&str>) -> Outcome {
         }
         k += 1;
     }
+    let fail = fail.or(fail_late.map(|v| (v, Op::arg(OpK::IterCheck, 0))));
     if let Some((v, _op)) = fail {
         out.viol_count = 1;
         let mut h = vec![Op::arg(OpK::ExtendFresh, 0)];
